@@ -1,5 +1,6 @@
 (* ConstDefaultDecls.v -- what the SOURCE declares, one small definition per item,
-   so that a translator can regenerate this file from /repo/src:
+   REGENERATED from /repo/src on every run by tools/ga2coq (tier T1) into
+   coq/gen/GenConstDefaultDecls.v and re-exported here:
 
      src/lib.rs                 the two repr(C) storage nodes (field order = memory
                                 order) and the ArrayLength::ArrayType recursion
@@ -8,42 +9,5 @@
 
    Nothing here is interpreted: ZeroDefault.v gives these declarations their
    meaning (leaves in field order, value built by the initialisers). *)
-From GA Require Import Base.
-
-(* ---- storage declarations (src/lib.rs) ---- *)
-
-(* fields of a storage node, by the role of their type:
-     parent1 : U, parent2 : U, data : T, _marker : PhantomData<T> *)
-Inductive field : Type := FParent1 | FParent2 | FData | FMarker.
-
-(* #[repr(C)] pub struct GenericArrayImplEven<T, U> { parent1: U, parent2: U, _marker: PhantomData<T> } *)
-Definition even_fields : list field := [FParent1; FParent2; FMarker].
-
-(* #[repr(C)] pub struct GenericArrayImplOdd<T, U> { parent1: U, parent2: U, data: T } *)
-Definition odd_fields : list field := [FParent1; FParent2; FData].
-
-(* impl ArrayLength for UTerm       { type ArrayType<T> = [T; 0]; }
-   impl ArrayLength for UInt<N, B0> { type ArrayType<T> = GenericArrayImplEven<T, N::ArrayType<T>>; }
-   impl ArrayLength for UInt<N, B1> { type ArrayType<T> = GenericArrayImplOdd<T, N::ArrayType<T>>; } *)
-Inductive node : Type := NEven | NOdd.
-Definition arraytype_of_bit (b1 : bool) : node := if b1 then NOdd else NEven.
-
-(* ---- initialiser expressions (src/impl_const_default.rs) ---- *)
-
-(* `X::DEFAULT` for a type parameter X, `ConstDefault::DEFAULT` (the type is
-   inferred from the field), `core::marker::PhantomData` *)
-Inductive tyvar : Type := TyU | TyT | TyInfer.
-Inductive init : Type := DefaultOf (ty : tyvar) | PhantomLit.
-
-(* impl<T, U: ConstDefault> ConstDefault for GenericArrayImplEven<T, U> *)
-Definition even_parent1_init : init := DefaultOf TyU.     (* parent1: U::DEFAULT *)
-Definition even_parent2_init : init := DefaultOf TyU.     (* parent2: U::DEFAULT *)
-Definition even_marker_init : init := PhantomLit.         (* _marker: core::marker::PhantomData *)
-
-(* impl<T: ConstDefault, U: ConstDefault> ConstDefault for GenericArrayImplOdd<T, U> *)
-Definition odd_parent1_init : init := DefaultOf TyU.      (* parent1: U::DEFAULT *)
-Definition odd_parent2_init : init := DefaultOf TyU.      (* parent2: U::DEFAULT *)
-Definition odd_data_init : init := DefaultOf TyT.         (* data: T::DEFAULT *)
-
-(* impl<T, U: ArrayLength> ConstDefault for GenericArray<T, U> where U::ArrayType<T>: ConstDefault *)
-Definition wrapper_data_init : init := DefaultOf TyInfer. (* data: ConstDefault::DEFAULT *)
+From GA Require Export ConstDefaultTypes.
+From GAGen Require Export GenConstDefaultDecls.
